@@ -296,6 +296,7 @@ func (f *Flat) splice(N *GNode, call *ast.CallExpr, form int, negated bool, call
 	}
 	if len(lhs) > 0 {
 		N.Ast = &ast.AssignStmt{Lhs: lhs, TokPos: call.Lparen, Tok: token.DEFINE, Rhs: rhs}
+		N.Synth = "bind"
 	} else {
 		N.Ast = nil
 	}
@@ -336,7 +337,7 @@ func (f *Flat) splice(N *GNode, call *ast.CallExpr, form int, negated bool, call
 			cur.Succs = []Edge{{To: dn.ID}}
 			cur = dn
 		}
-		bn := &GNode{ID: len(f.Nodes), Block: c.Block}
+		bn := &GNode{ID: len(f.Nodes), Block: c.Block, Synth: "result"}
 		f.Nodes = append(f.Nodes, bn)
 		f.Inl[bn.ID] = InlInfo{Callee: callee.Key, Site: N.ID}
 		cur.Succs = []Edge{{To: bn.ID}}
